@@ -54,6 +54,7 @@ type c21Case struct {
 	Chunk  bool      `json:"chunk"`
 	Ctx    int       `json:"ctx"`
 	Limits []limits  `json:"limits"`
+	Big    int       `json:"big,omitempty"` // > 0: one document has about this many matching lines
 }
 
 var lineVocab = []string{"", "foo", "foo foo", "bar foo baz", "needle", "xyz", "  foo()", "Foo bar", "é foo €", "qux", "foo needle foo", "bar", "foobar"}
@@ -102,6 +103,40 @@ func pickLim(r *gen.Rand, total int) int {
 	default:
 		return total + r.Range(0, 3)
 	}
+}
+
+// bigDocSizes: numbers of matching lines of the "large document" layout — around powers of ten and other round numbers
+// where size-dependent code paths (caps, pre-allocation, sampling) switch
+var bigDocSizes = []int{64, 300, 999, 1000, 1001, 1500, 4000}
+
+// genBigDocCase: one document has very many matches and the limits lie around its match count: the document that
+// crosses a limit must still be returned whole.
+func genBigDocCase(r *gen.Rand) c21Case {
+	c := genCase(r)
+	c.Query = gen.Pick(r, []string{"foo", "case:yes foo", "foo or needle", "fo+"})
+	n := gen.Pick(r, bigDocSizes)
+	var sb strings.Builder
+	for i := 0; i < n; i++ {
+		sb.WriteString(gen.Pick(r, []string{"foo\n", "x foo y\n", "foo\n", "foo foo\n"}))
+		if r.Chance(1, 20) {
+			sb.WriteString("plain\n")
+		}
+	}
+	si := r.Intn(len(c.Shards))
+	ri := r.Intn(len(c.Shards[si]))
+	repo := &c.Shards[si][ri]
+	di := r.Intn(len(repo.Docs))
+	repo.Docs[di] = cDoc{Name: repo.Docs[di].Name, Content: sb.String()}
+	c.Big = n
+	c.Limits = nil
+	for _, lim := range []int{1, 2, 10, n / 2, n - 1, n, n + 1, 2 * n} {
+		l := limits{ShardMax: lim, CancelAt: -1, TotalMax: gen.Pick(r, []int{0, lim, 3 * n})}
+		if r.Chance(1, 3) {
+			l.RepoMax = gen.Pick(r, []int{1, lim, n + 5})
+		}
+		c.Limits = append(c.Limits, l)
+	}
+	return c
 }
 
 func genCase(r *gen.Rand) c21Case {
@@ -666,10 +701,14 @@ func runSharded(w *gen.Writer, c c21Case, shards []shardInfo, class string, det 
 // schedLimit: how long after its context is done a search may take to return (generous: the machine may be loaded)
 var schedLimit = 4 * time.Second
 
-func runCase(w *gen.Writer, c c21Case, class string, withSched bool) {
+func runCase(w *gen.Writer, c c21Case, class string, withSched, withStack bool) {
 	det := gen.Detail(map[string]any{"c21": c})
 	if class == "" {
 		class = "gen"
+		if c.Big > 0 {
+			class = "gen-bigdoc"
+			w.Count(fmt.Sprintf("bigdoc/%d-matching-lines", c.Big), 1)
+		}
 	}
 	var shards []shardInfo
 	for i, repos := range c.Shards {
@@ -681,6 +720,9 @@ func runCase(w *gen.Writer, c c21Case, class string, withSched bool) {
 	runSharded(w, c, shards, class, det)
 	if withSched {
 		runSched(w, c, shards, class, det, schedLimit)
+	}
+	if withStack {
+		runStack(w, c, shards, class, det, schedLimit)
 	}
 }
 
@@ -720,14 +762,14 @@ func main() {
 	w := gen.NewWriter(f.Out)
 	defer w.Close()
 	if f.Replay != "" {
-		runCase(w, loadCase(f.Replay), "replay", true)
+		runCase(w, loadCase(f.Replay), "replay", true, true)
 		return
 	}
 	if f.Corpus != "" {
 		names, _ := filepath.Glob(filepath.Join(f.Corpus, "*.json"))
 		sort.Strings(names)
 		for _, n := range names {
-			runCase(w, loadCase(n), "corpus", true)
+			runCase(w, loadCase(n), "corpus", true, true)
 		}
 	}
 	r := gen.NewRand(f.Seed)
@@ -738,7 +780,12 @@ func main() {
 	}
 	start := time.Now()
 	for i := 0; i < n; i++ {
-		runCase(w, genCase(r.Fork()), "", i%2 == 0)
+		switch {
+		case i%4 == 1: // a large document with limits around its match count
+			runCase(w, genBigDocCase(r.Fork()), "", false, false)
+		default:
+			runCase(w, genCase(r.Fork()), "", i%2 == 0, i%3 == 0)
+		}
 		if time.Since(start) > budget {
 			w.Count("stopped-early-at", i)
 			break
